@@ -12,6 +12,7 @@ ops (one history = everything since the last `reset`), see go/cmd/c10/main.go:
   append <name:hex> <bytes:hex>    the lock holder (another process) appends to the article
   finish <id>                      its phase B, on whatever the index and the article hold by now
   expire <id>                      the lock is kept beyond its five attempts: the lock error, nothing changes
+  par <rounds> <type> <text:hex> <mtime>   <rounds> comments on every entry (concurrent in the implementation)
   redir <dir:hex>                  the board index is rewritten by another tool
   zone <location>                  configured TIME_LOCATION (no effect on the model: the time is a parameter)
   mark <type>
@@ -139,6 +140,25 @@ def showOutcome (st : St) (res : Res) : String :=
 def ticketId (s : String) : Bool :=
   !s.isEmpty && s.length ≤ 8 && s.all (fun c => c.isDigit || c.isLower)
 
+/-- the entries a `par` op addresses: the names of all complete entries; `none` unless every one is a safe name
+with an article file and the names differ from the third byte on. -/
+def parNames (st : St) : Option (List Bytes) :=
+  let total := st.dir.bytes.length / dirSz
+  let names := (List.range total).map (fun k => (record st.dir.bytes dirSz k).take Gen.RecFile.lenFilename)
+  let okOne (n : Bytes) : Bool := safeName (cstr n) && (fileGet st.files (cstr n)).isSome
+  let keys := names.map (fun n => (cstr n).drop 2)
+  if total = 0 || total > 64 || !names.all okOne || !keys.Pairwise (· ≠ ·) then none else some names
+
+/-- `rounds` comments on each entry, entry after entry: comments on different articles touch different files
+and different index entries, so any order gives the same state. -/
+def parRun (cfg : Cfg) (st : St) (names : List Bytes) (rounds ctype : Nat) (text : Bytes) (mtime : Int) : St × Nat :=
+  names.foldl (fun (acc : St × Nat) n =>
+    (List.range rounds).foldl (fun (acc : St × Nat) _ =>
+      let q : Req := { user := [65, 49, 0, 0, 0, 0, 0, 0, 0, 0, 0, 0, 0], name := n, ctype := ctype, text := text,
+                       ip := [49, 48, 46, 57, 46, 56, 46, 55, 0, 0, 0, 0, 0, 0, 0, 0], time := timeToken, mtime := mtime }
+      let (st', res) := recommend findLinear cfg acc.1 q
+      (st', acc.2 + (match res with | .ok _ _ => 1 | _ => 0))) acc) (st, 0)
+
 def stepC10 (d : DSt) (ws : List String) : DSt × String :=
   match ws with
   | ["reset", a, o, s, auto, dir] =>
@@ -194,6 +214,15 @@ def stepC10 (d : DSt) (ws : List String) : DSt × String :=
       if !ticketId id || d.tickets.any (fun e => e.1 == id) || d.tickets.length ≥ 8
           || (target.isSome && d.tickets.any (fun e => e.2.1 == target)) then (d, "bad-op")
       else ({ d with tickets := d.tickets ++ [(id, target, phaseA findLinear d.cfg d.st q)] }, "started")
+  | ["par", rounds, ct, text, mt] =>
+    if !d.have_ || !d.tickets.isEmpty then (d, "bad-op") else
+    match parseNatMax rounds 50, parseNatMax ct 255, parseHexStrict text, parseNatMax mt 2147483647, parNames d.st with
+    | some rounds, some ct, some text, some mt, some names =>
+      if rounds = 0 || mt = 0 || text.length > 4096 then (d, "bad-op")
+      else
+        let (st, nok) := parRun d.cfg d.st names rounds ct text (mt : Int)
+        ({ d with st }, s!"ok accepted={nok} {stateStr st}")
+    | _, _, _, _, _ => (d, "bad-op")
   | ["zone", z] =>
     -- the time part of a line is a parameter of the model (masked on the implementation side after it was judged)
     if !d.tickets.isEmpty || !(["Asia/Taipei", "UTC", "America/New_York", "Pacific/Kiritimati", "Asia/Kathmandu"].contains z)
